@@ -14,6 +14,8 @@ for m in sorted(glob.glob('/verif/seeded/*/meta.json')):
             l = l.strip()
             if l and not l.startswith('#'):
                 what = l[:160]; break
+    if d.get('not_counted'):
+        checks += f" — **not counted**: {d['not_counted']}"
     rows.append(f"| {d['seed']} | {d['breaks_property']} | {conf} | {checks} | {what} |")
 out = ["# Independently seeded changes", "",
        "Each change was produced by a sub-agent that saw only the text of one property and worked in its own",
